@@ -17,7 +17,7 @@ Clauses(c) ==
   IN  F("accept_iff", (o.cls = "ok") # (exp.v = "ok"))
       \cup F("error_type", ~(o.cls \in {"ok", "parse_error"} \/ (exp.v = "static" /\ o.cls = "jaqal_error")))
       \cup F("tree", o.cls = "ok" /\ exp.v = "ok" /\ o.tree # exp.tree)
-      \cup F("position", exp.v = "syntax" /\ o.cls = "parse_error" /\
+      \cup F("position", exp.v = "syntax" /\ ~exp.static /\ o.cls = "parse_error" /\
                 ~(IF exp.bad > Len(c.toks) THEN o.eof
                   ELSE o.eof \/ o.off \in TokStarts(c, exp.bad)))
       \cup F("string_entry_agrees",
